@@ -12,7 +12,7 @@ VERIF = os.path.dirname(os.path.dirname(os.path.abspath(__file__)))
 def run_splice_tuple(timeout=20):
     t0 = time.time()
     env = dict(os.environ)
-    env['PYTHONPATH'] = os.pathsep.join(['/repo/src', os.path.join(VERIF, '.deps')])
+    env['PYTHONPATH'] = os.pathsep.join([os.path.join(os.environ.get('SYMX_DEV_REPO', '/repo'), 'src'), os.path.join(VERIF, '.deps')])
     cmd = [sys.executable, '-m', 'crosshair', 'check', '--report_all', '--per_condition_timeout', str(timeout),
            os.path.join(VERIF, 'crosshair', 'splice_contract.py')]
     try:
